@@ -95,6 +95,10 @@ EXPLANATION += (
     ' Round 15: no in-place store through an alias of an array that is read again (R-ALIAS/edited-through-alias).'
 )
 
+EXPLANATION += (
+    ' Round 18: a total of lengths is a count in the kind analysis of chosen integer types (R-CAP/bound-kind).'
+)
+
 RULE_TEXT = (
     "one obligation per arithmetic relation (quotient, multiplier, "
     "comparison operator, conjunction operand) and per guard; polynomial "
